@@ -1266,7 +1266,9 @@ func genCase(r *rand.Rand, id int, pl *pools) Case {
 	// "collapse": streams whose label sets become EQUAL under the by/without of the query, one of them losing no label,
 	// with upstream (ClickHouse) fingerprints that are not the in-process hash: the split stage is line_format, or a
 	// label_format follows the parser
-	collapse := gp.metric && r.Intn(6) == 0
+	// (for a log query, and for half of the metric ones, a `drop pod` stage does the collapsing: an entry that loses nothing
+	// must end in the same series as one that loses its pod label)
+	collapse := r.Intn(6) == 0
 	collapseLF := false
 	if collapse {
 		if r.Intn(3) == 0 {
@@ -1298,6 +1300,9 @@ func genCase(r *rand.Rand, id int, pl *pools) Case {
 			pipe += " | label_format tier=" + strconv.Quote("front")
 		} else if r.Intn(2) == 0 {
 			pipe += " |= " + strconv.Quote("")
+		}
+		if !gp.metric || r.Intn(2) == 0 {
+			pipe += pick(r, []string{" | drop pod", " | drop pod, zone", " | drop zone=\"b\", pod"})
 		}
 	}
 	for i := 0; i < ns; i++ {
